@@ -20,6 +20,6 @@ For each change i (1..{n}) deliver in {wt}/seed_out/<i>/:
   - a demonstration: a Go test file (demo_test.go, with a comment on its first lines saying which package directory it must be copied into, e.g. `// package dir: internal/wal`) or a small program, that FAILS with the change and PASSES without it
   - meta.json : {{"property": "{pid}", "summary": "...", "needs_to_manifest": "...", "files_touched": [...], "demo_cmd": "the exact go test command", "existing_tests_cmd": "the command you ran to confirm the existing tests of the touched packages still pass"}}
 
-Practicalities: the sandbox has no network. Run Go with `GOPROXY=off GOFLAGS=-modfile=/tmp/gomod-{pid}/go.mod` after `mkdir -p /tmp/gomod-{pid} && cp {wt}/go.mod {wt}/go.sum /tmp/gomod-{pid}/` (never use -mod=mod; do not set GOSUMDB or GOTOOLCHAIN). Packages that link DuckDB (internal/api, internal/database, internal/compaction, cmd/arc ...) take ~3 minutes to compile the first time. Verify yourself, for each change: (a) `go build ./...` of the touched packages succeeds, (b) the existing tests of the touched packages pass with the change, (c) the demonstration fails with the change and passes on a clean HEAD (use `git stash` / `git checkout -- .` to switch; keep seed_out/ untracked). Reset the worktree to a clean HEAD (except seed_out/) before you finish, and remove /tmp/gomod-{pid}.
+Practicalities: the sandbox has no network. Run Go with `GOPROXY=off GOFLAGS=-modfile=/tmp/gomod-{pid}/go.mod` after `mkdir -p /tmp/gomod-{pid} && cp {wt}/go.mod {wt}/go.sum /tmp/gomod-{pid}/` (never use -mod=mod; do not set GOSUMDB or GOTOOLCHAIN). Packages that link DuckDB (internal/api, internal/database, internal/compaction, cmd/arc ...) take ~3 minutes to compile the first time. Verify yourself, for each change: (a) `go build ./...` of the touched packages succeeds, (b) the existing tests of the touched packages pass with the change, (c) the demonstration fails with the change and passes on a clean HEAD (switch with `git apply patch.diff` and `git apply -R patch.diff` or `git checkout -- .`; NEVER use `git stash`: the stash is shared with other worktrees of this repository that other people are using right now; keep seed_out/ untracked). Reset the worktree to a clean HEAD (except seed_out/) before you finish, and remove /tmp/gomod-{pid}.
 
 Final message: for each change, one paragraph: what it changes, why it breaks the property, what it needs to manifest, and the verification you ran with results.""")
